@@ -212,14 +212,13 @@ def fromRegisters (regs : List Nat) (bo wo : Endian) : PyM Decoder := do
 def bitChunks (coils : List Bool) : List (List Bool) :=
   (List.range ((coils.length + 7) / 8)).map (fun i => slice coils (8 * i) (8 * i + 8))
 
-/-- `fromCoils`: note `return klass(payload, byteorder)` — the word order argument is dropped and
-    the decoder gets the default `Endian.Big` -/
-def fromCoils (coils : List Bool) (bo _wo : Endian) : Decoder :=
+/-- `fromCoils`: `return klass(payload, byteorder, wordorder)` -/
+def fromCoils (coils : List Bool) (bo wo : Endian) : Decoder :=
   let padding := coils.length % 8
   let coils := if padding ≠ 0 then List.replicate padding false ++ coils else coils
   let chunks := bitChunks coils
   let payload := (chunks.map (fun chunk => packBitstring chunk.reverse)).flatten
-  ⟨payload, 0, bo, .big⟩
+  ⟨payload, 0, bo, wo⟩
 
 /-- `_unpack_words(fstring, handle)` -/
 def unpackWords (d : Decoder) (wc : Nat) (handle : Bytes) : PyM Bytes := do
